@@ -34,7 +34,21 @@ def enclosing_fn(lines, lineno):
     while i >= 0:
         m = FN_HEADER.match(lines[i])
         if m:
-            return m.group(1)
+            name = m.group(1)
+            if lines[i][:1] in (" ", "\t"):
+                k = i - 1
+                while k >= 0:
+                    if lines[k].startswith("}"):
+                        break
+                    mi = re.match(r"impl(?:<[^>]*>)?\s+(.*?)\s*\{", lines[k])
+                    if mi:
+                        hdr = mi.group(1)
+                        ty = hdr.split(" for ")[-1].strip()
+                        tr = hdr.split(" for ")[0].strip() if " for " in hdr else None
+                        # Verus names trait-impl methods Type::method as well
+                        return f"{ty}::{name}"
+                    k -= 1
+            return name
         i -= 1
     return "?"
 
